@@ -359,6 +359,27 @@ func checkBits(a, b int64) string {
 			}
 		}
 	}
+	// stacked prefix operators: each one acts on the value of its own operand,
+	// `~-5` is the complement of minus five
+	if a > math.MinInt64 && a < math.MaxInt64 {
+		mag := a
+		if mag < 0 {
+			mag = -mag
+		}
+		m := strconv.FormatInt(mag, 10)
+		f := fmt.Sprintf("[~-%s, -~%s, ~-ia, -~ia, ~+ia, - -ia, ~-~ia, -~-%s, ~ -%s & ib, ~-na]", m, m, m, m)
+		arr, msg := evalArr(f, data)
+		if msg != "" {
+			return msg
+		}
+		wantP := []int64{^(-mag), -(^mag), ^(-a), -(^a), ^a, a, ^(-(^a)), -(^(-mag)), ^(-mag) & b, ^(-a)}
+		namesP := []string{"~-" + m, "-~" + m, "~-ia", "-~ia", "~+ia", "- -ia", "~-~ia", "-~-" + m, "~ -" + m + " & ib", "~-na"}
+		for i, w := range wantP {
+			if !ratEq(arr[i], new(big.Rat).SetInt64(w)) {
+				return fmt.Sprintf("ia=na=%d ib=%d: %s = %s, two's complement says %d", a, b, namesP[i], obs.Show(arr[i]), w)
+			}
+		}
+	}
 	return ""
 }
 
